@@ -85,5 +85,6 @@ def run(ctx, chk):
     memrules.rule_alloc_failure_propagated(ctx, chk, eng)
     rule_producers_fail_clean(ctx, chk)
     memrules.rule_revert_protocol(ctx, chk, eng)
+    memrules.rule_mask_bit_after_copy(ctx, chk, eng)
     shared.rule_readonly_inputs(ctx, chk, eng, 'C14')
     chk.analysed['functions'] = len(ctx.irp.funcs)
